@@ -353,6 +353,9 @@ def run(rep, tier):
         vec_len = widest_load(facts, ('quote.inc.h',))
         rep.require(vec_len >= 16, 'C02.d: no vector load found in the string scanner (%s)' % cfg)
         clause_d(facts, rep, w, vec_len)
+        # 'with the pooling allocator': a pool chunk created for a request must cover it (shared with C16)
+        from . import c16
+        c16.chunk_size_rule(facts, rep)
     rep.min_instances('E1.status', 20)
     rep.trust('clang 14 parser/template instantiation/CFG builder', 'sv/primitives.py load widths',
               'libc realloc/free/memcpy semantics')
